@@ -524,7 +524,7 @@ class SA:
         c = k.const()
         if c is None:
             ok = z3.And(k.e >= 0, k.e < n)
-            if E.prove(ok, "index-in-range", dict(axis_len=n)) is not True:
+            if E.prove(ok, "index-in-range", dict(axis_len=n), quick=True) is not True:
                 E.add(ok)
                 if E.check() != z3.sat:
                     raise Abort()
